@@ -292,3 +292,53 @@ pub fn run(ctx: &mut Ctx) {
         }
     }
 }
+
+/// The scenarios of the repository's own ROS 2 unit tests (src/ros2/tests.rs) with the values pinned there
+/// (see drivers/rta.rs::run_suite); the rr / bw scenarios with periods of 10^3..10^4 are beyond TLC's reach.
+pub fn run_suite(ctx: &mut Ctx) {
+    let wd = ctx.watchdog_ms;
+    let sup = json!({"k": "periodic", "Q": 3, "P": 5});
+    let rbf = |a: Value, c: u64| json!({"k": "rbf", "a": a, "c": {"k": "scalar", "c": c}});
+    let per = |t: u64| json!({"k": "periodic", "T": t});
+    let spo = |t: u64, j: u64| json!({"k": "sporadic", "T": t, "J": j});
+    let rec = |dm: &Value, lim: u64| demand_rec(dm, 2 * lim + 4, wd);
+    let emit = |ctx: &mut Ctx, mut inp: Value, expect: i64| {
+        inp["expect"] = json!(expect);
+        inp["tags"] = json!(["suite"]);
+        let op = inp["op"].as_str().unwrap().to_string();
+        ctx.call(&op, inp, call_ros2);
+    };
+    // ros2_event_source
+    if let Some(own) = rec(&rbf(spo(5, 2), 2), 100) {
+        emit(ctx, json!({"op": "ros2_es", "supply": sup, "lim": 100, "own": own}), 7);
+    }
+    // ros2_timer_periodic (blocking 0 and 4), ros2_timer_sporadic
+    let own = rbf(per(10), 1);
+    let hp = json!({"k": "agg", "of": [rbf(per(10), 1), rbf(per(20), 3)]});
+    if let (Some(o), Some(h)) = (rec(&own, 100), rec(&hp, 100)) {
+        emit(ctx, json!({"op": "ros2_timer", "supply": sup, "lim": 100, "own": o, "hp": h, "B": 0}), 12);
+        emit(ctx, json!({"op": "ros2_timer", "supply": sup, "lim": 100, "own": o, "hp": h, "B": 4}), 20);
+        // ros2_pp_callback: same demand, as a polled callback
+        emit(ctx, json!({"op": "ros2_pp", "supply": sup, "lim": 100, "own": o, "others": h}), 12);
+    }
+    let hp2 = json!({"k": "dslice", "of": [rbf(per(10), 1), rbf(spo(20, 10), 3)]});
+    if let (Some(o), Some(h)) = (rec(&own, 100), rec(&hp2, 100)) {
+        emit(ctx, json!({"op": "ros2_timer", "supply": sup, "lim": 100, "own": o, "hp": h, "B": 0}), 17);
+    }
+    // ros2_chain / ros2_chain2: chain 1+2+3 every 25, other chains 3 and 3 with Sporadic(20, 25)
+    let others = json!({"k": "dslice", "of": [rbf(spo(20, 25), 3), rbf(spo(20, 25), 3)]});
+    if let (Some(l), Some(p), Some(f), Some(ot)) = (rec(&rbf(per(25), 3), 1000), rec(&rbf(per(25), 3), 1000), rec(&rbf(per(25), 6), 1000), rec(&others, 1000)) {
+        emit(ctx, json!({"op": "ros2_chain", "supply": sup, "lim": 1000, "last": l, "prefix": p, "full": f, "others": ot}), 72);
+    }
+    let all_other = json!({"k": "agg", "of": [{"k": "agg", "of": [rbf(spo(20, 25), 3), rbf(spo(20, 25), 3)]}, rbf(per(25), 3)]});
+    if let (Some(o), Some(ot)) = (rec(&rbf(per(25), 3), 1000), rec(&all_other, 1000)) {
+        emit(ctx, json!({"op": "ros2_pp", "supply": sup, "lim": 1000, "own": o, "others": ot}), 72);
+    }
+    // singleton_subchain_rr / singleton_subchain_bw: one timer, cost 1, every 100, assumed bound 5 (limit lowered to 300)
+    for op in ["ros2_rr", "ros2_bw"] {
+        let cb = json!({"t": "timer", "p": 0, "R": 5, "a": per(100), "c": {"k": "scalar", "c": 1}});
+        if let Some(c) = cb_rec(&cb, 300 + 5 + 8, wd) {
+            emit(ctx, json!({"op": op, "supply": sup, "lim": 300, "workload": [c], "sub": [1]}), 5);
+        }
+    }
+}
